@@ -314,7 +314,7 @@ func run(d desc) hlib.Case {
 	}
 	c := hlib.Case{Kind: ctor + ":" + d.Gen, Size: len(d.H)}
 	c.Coq = hlib.App(ctor, d.Cfg.Coq(), hlib.Nat(d.BSize), hlib.Hex(d.H), hlib.Hex(d.S1), hlib.Hex(d.S2), o0.Coq, o1.Coq, o2.Coq)
-	c.Key = hd.Key(d.H)
+	c.Key = hd.Key(d.Resp, d.H)
 	complete := hd.HeadLen(d.H) == len(d.H) && len(d.H) > 0
 	c.Sig = ctor + "/" + o0.Class + "/" + o1.Class + "/" + o2.Class + "/complete=" + strconv.FormatBool(complete) + "/guard=" + strconv.FormatBool(hd.CRLFTerminated(d.H))
 	return c
